@@ -17,6 +17,7 @@ import (
 	"github.com/ja7ad/otp"
 	"github.com/ja7ad/otp/verifharness/ev"
 	"github.com/ja7ad/otp/verifharness/irt"
+	"github.com/ja7ad/otp/verifharness/ref"
 )
 
 func init() { register("C10", "exploration", c10) }
@@ -327,6 +328,45 @@ func c10Descs() []desc {
 			su, sd := suites(ix[2])
 			in := oi[ix[3]]
 			return fmt.Sprintf("%s, %s, %s, lens(%d,%d,%d,%d,%d)", sh(s), sh(code), sd, len(in.Counter), len(in.Challenge), len(in.Password), len(in.SessionInfo), len(in.Timestamp)), func() { otp.ValidateOCRA(s, code, su, in) }
+		}},
+		{"volume: many DISTINCT values of one argument in one process", "NewRawSuite", []int{6}, func(ix []int) (string, func()) {
+			// anything that remembers arguments (a memo, a ring, an index) meets more distinct values here than it has
+			// room for: 600 distinct accepted suite strings, secrets, URLs, questions ... each family in one call
+			fam := []string{"suite strings", "secrets", "provisioning URLs", "decimal questions", "hex inputs", "enum renderings"}[ix[0]]
+			return "600 distinct " + fam, func() {
+				for k := 0; k < 600; k++ {
+					switch ix[0] {
+					case 0:
+						name := fmt.Sprintf("OCRA-1:HOTP-SHA%s-%d:%sQN%s-T%d%s", []string{"1", "256", "512"}[k%3], 4+k%7, []string{"", "C-"}[k%2], []string{"08", "10"}[(k/2)%2], 1+k/12, []string{"S", "M", "H"}[(k/4)%3])
+						if su, err := otp.NewRawSuite(name); err == nil {
+							_ = su.String()
+							otp.GenerateOCRA(aSecrets[2], su, otp.OCRAInput{Counter: mkLen(8, 1), Challenge: mkLen(10, 2), Timestamp: mkLen(8, 3)})
+						}
+						otp.IsKnownSuite(name)
+						otp.SuiteConfigFromRaws(name)
+					case 1:
+						sec := ref.B32Encode([]byte(fmt.Sprintf("key-%04d-0123456789", k)))
+						otp.DecodeSecret(sec)
+						otp.GenerateHOTP(sec, uint64(k), nil)
+						otp.ValidateTOTP(sec, "123456", time.Unix(int64(k)*30, 0), nil)
+					case 2:
+						if u, err := otp.GenerateTOTPURL(otp.URLParam{Issuer: fmt.Sprint("I", k), AccountName: fmt.Sprint("a", k), Secret: "JBSWY3DPEHPK3PXP", Period: uint(30 + k)}); err == nil {
+							otp.ParseOTPAuthURL(u)
+						}
+					case 3:
+						otp.ParseDecimalChallengeRFC6287(fmt.Sprint(10000000 + k*7919))
+						otp.ParseDecimalToBigEndian8(fmt.Sprint(uint64(k) << 40))
+					case 4:
+						otp.HexInputToOCRA(fmt.Sprintf("%016x", k), fmt.Sprintf("%020x", k*31), "", fmt.Sprintf("%04x", k), fmt.Sprintf("%x", 20000000+k))
+						otp.ParseHexTimestamp(fmt.Sprintf("%x", 20000000+k))
+					case 5:
+						_ = otp.Algorithm(k % 256).String()
+						_ = otp.Digits(k % 256).Int()
+						otp.DigitsFromStr(fmt.Sprint(k))
+						otp.AlgorithmFromStr(fmt.Sprint("SHA", k))
+					}
+				}
+			}
 		}},
 		{"GenerateOCRA/ValidateOCRA-inconsistent-suite-values", "GenerateOCRA", []int{5, 12, 6, 6, 2, 3}, func(ix []int) (string, func()) {
 			// suite VALUES whose name and numbers contradict one another: a registered / parsable / junk name on a
